@@ -3,7 +3,7 @@
     taurex/util/util.py:quantile_corner (weighted branch)
     taurex/optimizer/nestle.py:store_nestle_output (value / sigma_m / sigma_p / map / mean / trace),
       multinest.py:store_nest_solutions, polychord.py:store_polychord_solutions (same quantile rule)
-    taurex/optimizer/optimizer.py:compute_derived_trace (single process: trace, re-ordering by sorted weights,
+    taurex/optimizer/optimizer.py:compute_derived_trace (trace, restoring sample order by the gathered sample indices,
       quantiles, mean)
   Externals (documented behaviour, validated numerically by the check):
     `np.argsort`           — stable insertion sort by key (ties keep input order);
@@ -128,16 +128,25 @@ variable {β : Type}
 /-- the derived trace of `compute_derived_trace` in one process: one value per sample, in sample order -/
 def derivedTrace {γ : Type} (f : γ → β) (samples : List γ) : List β := samples.map f
 
-/-- `a[dst] = a[src]` (numpy fancy assignment, right-hand side evaluated first; `dst` without repeats):
-    position `dst[k]` receives the old `a[src[k]]`, all other positions keep their value -/
-def scatter (dst src : List Nat) (a : List β) : List β :=
-  a.mapIdx (fun i old =>
-    match dst.idxOf? i with
-    | some k =>
-      match src[k]? with
-      | some j => (a[j]?).getD old
-      | none => old
-    | none => old)
+/-- insert a (key, position) pair before the first pair whose key is not smaller (stable) -/
+def insertKey (p : Nat × Nat) : List (Nat × Nat) → List (Nat × Nat)
+  | [] => [p]
+  | q :: qs => if q.1 < p.1 then q :: insertKey p qs else p :: q :: qs
+
+def sortKeys : List (Nat × Nat) → List (Nat × Nat)
+  | [] => []
+  | p :: ps => insertKey p (sortKeys ps)
+
+/-- `all_index.argsort()`: the positions of `index`, ordered by the value found there (stable) -/
+def argsortNat (index : List Nat) : List Nat := (sortKeys index.zipIdx).map Prod.snd
+
+/-- `a[perm]` (numpy fancy indexing) -/
+def gather (perm : List Nat) (a : List β) : List β := perm.filterMap (fun j => a[j]?)
+
+/-- the re-ordering step of `compute_derived_trace`: `all_index` holds the sample index of every gathered entry
+    (one process: `range(0, n, 1)`; several: the rank blocks `range(r, n, size)` concatenated),
+    `restore = all_index.argsort()`, `all_trace = gathered[restore]` -/
+def restoreOrder (index : List Nat) (a : List β) : List β := gather (argsortNat index) a
 
 end
 
